@@ -274,7 +274,17 @@ def run(ctx: Ctx):
                 probs.append(f"{attr} is not copied from the request")
             else:
                 facts = must_facts(g, at, n)
-                if not any(f_[0].replace(" ", "").replace('"', "'") == f"hasattr({m},'{attr}')" and f_[3] for f_ in facts):
+                guarded = any(f_[0].replace(" ", "").replace('"', "'") == f"hasattr({m},'{attr}')" and f_[3] for f_ in facts)
+                if not guarded:
+                    # EAFP: the copy sits in a try whose handler catches AttributeError.  A try of
+                    # its own is equivalent to the hasattr guard; a try shared with the other copy
+                    # is equivalent as long as no typed request has the one attribute without the
+                    # other (which C20-R1 `#session_id` establishes for every class)
+                    tries = [x for x in n.lexical if isinstance(x, ast.Try) and any(
+                        h.type is None or any(k in ast.unparse(h.type) for k in ("AttributeError", "Exception"))
+                        for h in x.handlers)]
+                    guarded = bool(tries)
+                if not guarded:
                     probs.append(f"{attr} is copied without the hasattr guard")
                 extra = [f_ for f_ in facts if not f_[0].startswith("hasattr(")]
                 if extra:
